@@ -737,3 +737,195 @@ pub fn orphan_scenario(ch: &mut Chooser, _thorough: bool) -> Exec {
     }
     Exec { outcome: Digest::of64(&obs), violation, features: vec![] }
 }
+
+/// C13 / C17 on a dual-stack host: the server owns an IPv4 and an IPv6 address and listens on
+/// the same port with two wildcard listeners, `0.0.0.0:80` and `[::]:80`. A client connects
+/// through one family; while its handshake is half done (SYN delivered, SYN-ACK not yet) or
+/// before it starts, the server closes one of the two listeners. Closing the listener of the
+/// *other* family must not disturb the connection: the connect succeeds and the remaining
+/// listener hands it out. Closing the listener the SYN reached may refuse or reset it.
+pub fn dualstack_scenario(ch: &mut Chooser, _thorough: bool) -> Exec {
+    let client_v6 = ch.flag("client_connects_over_ipv6");
+    let close_v6 = ch.flag("the_ipv6_listener_is_closed");
+    let when = ch.choose("listener_closed(before the SYN|SYN delivered, SYN-ACK in flight|after the handshake, before accept)", 3);
+    let mut net = Net::with_config(KernelConfig::default());
+    let (c4, c6): (IpAddr, IpAddr) = ("10.0.0.1".parse().unwrap(), "fd00::1".parse().unwrap());
+    let (s4, s6): (IpAddr, IpAddr) = ("10.0.0.2".parse().unwrap(), "fd00::2".parse().unwrap());
+    let c = net.add_host(vec![c4, c6]);
+    let s = net.add_host(vec![s4, s6]);
+    let hosts = [c, s];
+    let guard = net.enter();
+    #[derive(Default)]
+    struct Log {
+        connect: Option<Result<SocketAddr, String>>,
+        accepted: Vec<(bool, SocketAddr)>,
+        binds: Vec<String>,
+        close_now: bool,
+        closed: bool,
+        accept_gate: bool,
+    }
+    let log: Rc<RefCell<Log>> = Rc::new(RefCell::new(Log::default()));
+    let mut exec = Executor::new();
+    {
+        let log = log.clone();
+        exec.spawn(1, async move {
+            let l4 = TcpListener::bind(SocketAddr::new("0.0.0.0".parse().unwrap(), 80)).await;
+            let l6 = TcpListener::bind(SocketAddr::new("::".parse().unwrap(), 80)).await;
+            log.borrow_mut().binds.push(format!("0.0.0.0:80 {:?}, [::]:80 {:?}", l4.as_ref().map(|_| ()).map_err(|e| errk(e)), l6.as_ref().map(|_| ()).map_err(|e| errk(e))));
+            let (Ok(l4), Ok(l6)) = (l4, l6) else { return };
+            let (mut l4, mut l6) = (Some(l4), Some(l6));
+            let mut keep = vec![];
+            loop {
+                if log.borrow().close_now && !log.borrow().closed {
+                    if close_v6 {
+                        l6 = None;
+                    } else {
+                        l4 = None;
+                    }
+                    log.borrow_mut().closed = true;
+                }
+                if log.borrow().accept_gate {
+                    for (is6, l) in [(false, &l4), (true, &l6)] {
+                        if let Some(l) = l {
+                            let w = std::task::Waker::noop();
+                            let mut cx = std::task::Context::from_waker(w);
+                            if let std::task::Poll::Ready(Ok((st, peer))) = l.poll_accept(&mut cx) {
+                                log.borrow_mut().accepted.push((is6, peer));
+                                keep.push(st);
+                            }
+                        }
+                    }
+                }
+                // polled once per round by the driver
+                let mut first = true;
+                std::future::poll_fn(|cx| {
+                    if first {
+                        first = false;
+                        cx.waker().wake_by_ref();
+                        std::task::Poll::Pending
+                    } else {
+                        std::task::Poll::Ready(())
+                    }
+                })
+                .await;
+            }
+        });
+    }
+    let started: Rc<RefCell<bool>> = Rc::new(RefCell::new(false));
+    {
+        let (log, started) = (log.clone(), started.clone());
+        exec.spawn(0, async move {
+            std::future::poll_fn(|cx| {
+                if *started.borrow() {
+                    std::task::Poll::Ready(())
+                } else {
+                    cx.waker().wake_by_ref();
+                    std::task::Poll::Pending
+                }
+            })
+            .await;
+            let dst = SocketAddr::new(if client_v6 { s6 } else { s4 }, 80);
+            match TcpStream::connect(dst).await {
+                Ok(st) => {
+                    log.borrow_mut().connect = Some(Ok(st.local_addr().unwrap()));
+                    std::future::pending::<()>().await;
+                    drop(st);
+                }
+                Err(e) => log.borrow_mut().connect = Some(Err(errk(&e))),
+            }
+        });
+    }
+    // rounds: 0 setup; `when`==0: close in round 1, connect starts in round 2;
+    // `when`==1: connect starts in round 1, its SYN is delivered in round 2 and the listener is
+    // closed in that same round before the SYN-ACK is put on the wire; `when`==2: close once
+    // the client is connected, accept only afterwards
+    let mut wire: VecDeque<turmoil_net::Packet> = VecDeque::new();
+    let mut obs: Vec<String> = vec![];
+    for r in 0..40u32 {
+        if when == 0 {
+            if r == 1 {
+                log.borrow_mut().close_now = true;
+            }
+            if r == 2 {
+                *started.borrow_mut() = true;
+            }
+            log.borrow_mut().accept_gate = true;
+        } else if when == 1 {
+            if r == 1 {
+                *started.borrow_mut() = true;
+            }
+            let closed = log.borrow().closed;
+            log.borrow_mut().accept_gate = closed;
+        } else {
+            if r == 1 {
+                *started.borrow_mut() = true;
+            }
+            if log.borrow().connect.is_some() {
+                log.borrow_mut().close_now = true;
+            }
+            let closed = log.borrow().closed;
+            log.borrow_mut().accept_gate = closed;
+        }
+        // deliver what was put on the wire in the previous round
+        let batch: Vec<_> = wire.drain(..).collect();
+        let mut syn_seen = false;
+        for p in batch {
+            if let turmoil_net::Transport::Tcp(sg) = &p.payload {
+                if sg.flags.syn && !sg.flags.ack {
+                    syn_seen = true;
+                }
+            }
+            guard.deliver(p);
+        }
+        if when == 1 && syn_seen {
+            // the SYN has just reached the server: close before anything else happens
+            log.borrow_mut().close_now = true;
+        }
+        exec.run_until_stalled(4000, |tag| turmoil_net::set_current(hosts[tag as usize]));
+        let mut out = vec![];
+        guard.egress_all(&mut out);
+        for p in out {
+            obs.push(format!("round {r}: {}", crate::wire::pkt_key(&p)));
+            wire.push_back(p);
+        }
+    }
+    let l = log.borrow();
+    let same_family = client_v6 == close_v6;
+    let mut violation: Option<Violation> = None;
+    let what = format!(
+        "client connects over {}, the {} wildcard listener is closed {}",
+        if client_v6 { "IPv6" } else { "IPv4" },
+        if close_v6 { "[::]:80" } else { "0.0.0.0:80" },
+        ["before the SYN", "while the handshake is half done", "after the handshake, before accept"][when]
+    );
+    if l.binds.iter().any(|b| b.contains("Err")) {
+        // the two wildcard binds exclude each other in this stack: nothing to judge
+    } else if !same_family {
+        let ok = matches!(&l.connect, Some(Ok(_))) && l.accepted.len() == 1 && l.accepted[0].0 == client_v6 && Some(l.accepted[0].1) == l.connect.clone().and_then(|c| c.ok());
+        if !ok {
+            violation = Some(Violation::new(
+                "other-family-listener-close",
+                format!("{what}: connect returned {:?}, accepted (via IPv6 listener?, peer) {:?}; the listener of the other family is untouched, so the connect must succeed and be handed out by it exactly once", l.connect, l.accepted),
+            ));
+        }
+    } else {
+        // the listener the SYN reaches is closed: no success may be reported without an accept
+        // on a live listener, and nothing may be accepted by the other family's listener
+        if l.accepted.iter().any(|a| a.0 != client_v6) {
+            violation = Some(Violation::new("misrouted-syn", format!("{what}: the connection was accepted by the listener of the other family: {:?}", l.accepted)));
+        } else if l.connect.is_none() {
+            violation = Some(Violation::new("hang", format!("{what}: the connect neither succeeded nor failed within 40 rounds")));
+        }
+    }
+    drop(l);
+    drop(exec);
+    drop(guard);
+    let o = format!("client_v6={client_v6} close_v6={close_v6} when={when} log: connect={:?} accepted={:?} binds={:?}", log.borrow().connect, log.borrow().accepted, log.borrow().binds);
+    if let Some(v) = violation.as_mut() {
+        v.sig = format!("dual-stack|{}", v.clause);
+        v.scenario = format!("c13-dualstack {o}");
+        obs.push(o.clone());
+        v.actions = obs.clone();
+    }
+    Exec { outcome: Digest::of64(&o), violation, features: vec![] }
+}
